@@ -159,6 +159,23 @@ def error_obs(o, p):
     add('setitem-int', lambda: d1.copy().__setitem__(0, True))
     add('format-unknown', lambda: concepts.Context([a], [x], [(1,)]).tostring('nope'))
     add('infer-format', lambda: concepts.load('file.unknown'))
+    # several offending names / symbols at once: a message that lists them must not list them
+    # in hash order
+    add('definition-dup-2', lambda: D([b, a, c_, a, b, c_], [x], R(6, 1)))
+    add('definition-dup-p-3', lambda: D([a], [z, y, x, x, y, z], R(1, 6)))
+    add('dup-objects-3', lambda: C([c_, b, a, a, b, c_], [x], R(6, 1)))
+    add('dup-properties-3', lambda: C([a], [z, x, y, y, x, z], R(1, 6)))
+    add('fromdict-dup-names-3', lambda: C.fromdict(dict(good, objects=(b, a, b, a))))
+    for fname in ('csv', 'table', 'cxt'):
+        for sym in ((x, y, z), (z, y, x), (a, b, c_)):
+            text = {'csv': 'o,p,q,r\nrow,%s,%s,%s\nrow2,%s,%s,%s\n' % (sym + sym[::-1]),
+                    'table': ' |p|q|r|\nrow|%s|%s|%s|\n' % sym,
+                    'cxt': 'B\n\n1\n3\n\nrow\np\nq\nr\n%s%s%s\n' % tuple(t[:1] for t in sym)}[fname]
+            add(f'load-{fname}-symbols-{"".join(sym)}',
+                lambda text=text, fname=fname: repr(C.fromstring(text, frmat=fname)))
+    for cls in (C, D):
+        add(f'unknown-format-{cls.__name__}',
+            lambda cls=cls: cls.fromstring('x', frmat='no-such-format'))
     return out
 
 
@@ -178,8 +195,20 @@ def definition_obs(universe, states, label, two_step=False):
                 r = 'ok:' + repr(explore.norm_ret(op[0], ret))
             except Exception as e:
                 r = f'raise:{type(e).__name__}:{e}'
-            out.append((json.dumps([tm.triple(s), explore.enc_op(op)]),
-                        repr(explore.visible(real)) + '|' + r + '|' + real.tostring()))
+            shown = repr(explore.visible(real)) + '|' + r + '|' + real.tostring()
+            # reveal suffix: whatever the call left behind that the table does not show yet
+            # (cells of names the definition does not have) - fill ratio, then every universe
+            # name is added on both axes and the table is read again
+            try:
+                tail = [repr(real.fill_ratio)]
+                for o in universe[0]:
+                    real.add_object(explore.L(o))
+                for q in universe[1]:
+                    real.add_property(explore.L(q))
+                tail.append(repr(explore.visible(real)))
+            except Exception as e:
+                tail = [f'raise:{type(e).__name__}:{e}']
+            out.append((json.dumps([tm.triple(s), explore.enc_op(op)]), shown + '|' + '|'.join(tail)))
     return out
 
 
